@@ -64,6 +64,15 @@ package api
 //@   property C08 C11
 //@   modifies nothing
 
+// the query-string form of the pin options (REST client -> REST API, add endpoint): every option that is set is
+// carried by the query (the decoder's side is FromQuery below)
+//@ func (po *PinOptions) ToQuery
+//@   property C08
+//@   requires po != nil
+//@   ensures [origins-carried] err == nil && len(po.Origins) > 0 ==> haskey(q, "origins")
+//@   ensures [pin-update-carried] err == nil && po.PinUpdate != cid.Undef ==> haskey(q, "pin-update")
+//@   modifies nothing
+
 //@ func (po *PinOptions) FromQuery
 //@   property C08 C11
 //@   opts split_returns
@@ -170,6 +179,15 @@ package api
 
 // ---- text / JSON form of the tracker status: every status has a name of its own ----
 // (String, MarshalJSON, UnmarshalJSON and the filter parser all go through this one table and its reverse)
+// the text form of a status or filter: a simple (table) value is written by its table name
+//@ func (st TrackerStatus) String
+//@   property C08 C11
+//@   ensures [table-value-by-its-name] haskey(trackerStatusString, st) ==> res == trackerStatusString[st]
+//@   modifies nothing
+// the inverse direction: names are looked up in the table, unknown ones contribute nothing
+//@ func TrackerStatusFromString
+//@   property C08 C11
+//@   modifies nothing
 //@ lemma every_status_has_a_name: haskey(trackerStatusString, TrackerStatusUndefined) && haskey(trackerStatusString, TrackerStatusClusterError) && haskey(trackerStatusString, TrackerStatusPinError) && haskey(trackerStatusString, TrackerStatusUnpinError) && haskey(trackerStatusString, TrackerStatusError) && haskey(trackerStatusString, TrackerStatusPinned) && haskey(trackerStatusString, TrackerStatusPinning) && haskey(trackerStatusString, TrackerStatusUnpinning) && haskey(trackerStatusString, TrackerStatusUnpinned) && haskey(trackerStatusString, TrackerStatusRemote) && haskey(trackerStatusString, TrackerStatusPinQueued) && haskey(trackerStatusString, TrackerStatusUnpinQueued) && haskey(trackerStatusString, TrackerStatusQueued) && haskey(trackerStatusString, TrackerStatusSharded) && haskey(trackerStatusString, TrackerStatusUnexpectedlyUnpinned)
 //@   property C08 C06
 //@ lemma status_names_are_distinct: forall a TrackerStatus, b TrackerStatus :: haskey(trackerStatusString, a) && haskey(trackerStatusString, b) && a != b ==> trackerStatusString[a] != trackerStatusString[b]
@@ -206,6 +224,11 @@ package api
 //@ func (pm PinMode) String
 //@   property C08
 //@   ensures res == pinModeName(pm)
+//@   modifies nothing
+// the pin mode a depth calls for: 0 is a direct pin, everything else recursive
+//@ func (pd PinDepth) ToPinMode
+//@   property C08 C16
+//@   ensures res == ite(pd == 0, PinModeDirect, PinModeRecursive)
 //@   modifies nothing
 //@ func PinModeFromString
 //@   property C08 C11
